@@ -23,12 +23,25 @@ ECON = 'beartype/_check/error/_pep/pep484585/errpep484585container.py'
 EMAP = 'beartype/_check/error/_pep/pep484585/errpep484585mapping.py'
 
 IOP = 'beartype/_data/cls/pep/pep544/io/dataclspep544io.py'
+REPR = 'beartype/_data/hint/datahintrepr.py'
 
 # name: (files, edit, expectations, why)
 M = {
     'union-refetches-item-for-first-subscripted-member': ([UN], sub(UN,
         "                        hint_childs_nonpep or\n", "                        False or\n"),
         {'C09': 'C09.R5', 'C10': None}, 'list[int | list[str]] reads the sampled item twice (seeded C09-12)'),
+    'iterator-prefix-mapped-to-iterable-sign': ([REPR], sub(REPR, "'collections.abc.Iterator': HintSignIterator,", "'collections.abc.Iterator': HintSignIterable,"),
+        {'C10': 'C10.R7'}, 'collections.abc.Iterator[T] is checked like an Iterable: next() on a sized iterator (seeded C10-22)'),
+    'explainer-enumerates-without-a-draw': ([LOG], sub(LOG, "        if cause.conf.strategy is BeartypeStrategy.O1:",
+        "        if cause.conf.strategy is BeartypeStrategy.O1 and cause.random_int is not None:"),
+        {'C09': 'C09.R3', 'C10': None}, 'the explanation walks the whole container when the wrapper made no draw (seeded C09-23)'),
+    'isinstance-builtin-by-bare-name': ([VTY], chain(sub(VTY, "from beartype._util.cls.utilclstest import is_type_subclass",
+        "from beartype._util.cls.utilclstest import is_type_builtin, is_type_subclass"), sub(VTY, "        param_name_types = add_func_scope_attr(\n            attr=types, func_scope=is_valid_code_locals)",
+        "        param_name_types = (types.__name__ if isinstance(types, type) and is_type_builtin(types) else add_func_scope_attr(\n            attr=types, func_scope=is_valid_code_locals))")),
+        {'C12': 'C12.R6'}, 'a module-level name shadowing the builtin changes the verdict (seeded C12-23)'),
+    'isequal-unwraps-one-tuples': ([VEQ], sub(VEQ, "        param_name_obj_value = add_func_scope_attr(\n            attr=obj, func_scope=is_valid_code_locals)",
+        "        if isinstance(obj, tuple) and len(obj) == 1:\n            obj = obj[0]\n        param_name_obj_value = add_func_scope_attr(\n            attr=obj, func_scope=is_valid_code_locals)"),
+        {'C12': 'C12.R6'}, 'IsEqual[(3,)] means == 3 (seeded C12-22)'),
     'textio-hook-reads-the-stream': ([IOP], sub(IOP, "'b' not in obj.mode", "not isinstance(obj.read(0), bytes)"),
         {'C10': 'C10.R6'}, 'checking a stream against TextIO calls its read() (seeded C10-12)'),
     'binaryio-hook-mode-via-getattr': ([IOP], sub(IOP, "'b' in obj.mode", "'b' in getattr(obj, 'mode')"),
